@@ -286,16 +286,21 @@ Definition digits_to_Z (d : text) : Z :=
 Definition f32_neg_zero_bits : Z := 2147483648%Z.
 
 Section WithFloat.
-  (* decimal literal (normalised text of the literal) -> binary32 bit pattern;
-     stands for serde_json's decimal->f64 followed by `as f32` *)
-  Variable f32_of_decimal : text -> Z.
+  (* decimal literal (normalised text of the literal, [numlit_text]) -> binary32
+     bit pattern; stands for serde_json's decimal->f64 followed by `as f32`.
+     None: serde_json rejects the literal (number out of range: it overflows f64,
+     e.g. 1e400). *)
+  Variable f32_of_decimal : text -> option Z.
 
-  Definition number_value (n : numlit) : json :=
+  Definition number_value (n : numlit) : option json :=
     if numlit_is_int n then
       let v := digits_to_Z (nl_int n) in
-      if nl_neg n then (if Z.eqb v 0 then JFloat f32_neg_zero_bits else JInt (- v)%Z)
-      else JInt v
-    else JFloat (f32_of_decimal (numlit_text n)).
+      if nl_neg n then (if Z.eqb v 0 then Some (JFloat f32_neg_zero_bits) else Some (JInt (- v)%Z))
+      else Some (JInt v)
+    else match f32_of_decimal (numlit_text n) with
+         | Some b => Some (JFloat b)
+         | None => None
+         end.
 
   (* ---------- values ---------- *)
   Definition serde_depth : nat := 127.
@@ -347,7 +352,11 @@ Section WithFloat.
             else if starts_with (T "null") (c :: r) then Some (JNull, skipn 4 (c :: r))
             else
               match lex_number (c :: r) with
-              | Some (n, r') => Some (number_value n, r')
+              | Some (n, r') =>
+                  match number_value n with
+                  | Some v => Some (v, r')
+                  | None => None
+                  end
               | None => None
               end
         end
